@@ -233,7 +233,7 @@ func (c *Ctx) frameObligations(ct *Contract, names calleeNames, args []Val, out 
 		post := out.heap[k]
 		pre, ok := c.entryState.heap[k]
 		if !ok {
-			pre = "H0_" + sanitizeSym(k)
+			pre = c.defName(c.entryState, k)
 		}
 		if post == pre {
 			continue
@@ -276,7 +276,7 @@ func (c *Ctx) frameObligations(ct *Contract, names calleeNames, args []Val, out 
 		post := out.mem[k]
 		pre, ok := c.entryState.mem[k]
 		if !ok {
-			pre = "M0_" + sanitizeSym(k)
+			pre = c.defName(c.entryState, "M:"+k)
 		}
 		if post == pre {
 			continue
